@@ -1,5 +1,5 @@
 (* C17 — non-vacuity examples for the hypotheses of Props.v, and refutation witnesses *)
-From Coq Require Import ZArith List.
+From Coq Require Import ZArith List Lia.
 From FV Require Import C17.Model C17.Proofs.
 Import ListNotations.
 Open Scope Z_scope.
@@ -42,6 +42,29 @@ Proof. reflexivity. Qed.
 Example ex_direct : memz 5 [] = false /\ glyph_at ex_font 5 = GC [2] 15
   /\ fst (clos 70 ex_font 5 ([], 128) 0) = [4; 1; 2; 5].
 Proof. repeat split; reflexivity. Qed.
+(* hypotheses of c17_closure_component_closed are satisfiable by a font with nested composites *)
+Definition ex_rank (g : Z) : Z := if g =? 5 then 2 else if g =? 2 then 1 else 0.
+Example ex_closed_hyps :
+  (forall g, 0 <= ex_rank g <= 65)
+  /\ (forall g cs h c, glyph_at ex_font g = GC cs h -> In c cs -> ex_rank c < ex_rank g)
+  /\ (forall g cs h c, glyph_at ex_font g = GC cs h -> In c cs -> 0 <= c < f_n ex_font)
+  /\ f_n ex_font <= zlen (view (f_n ex_font) (gsub_set ex_font [5] [])) * 64.
+Proof.
+  assert (Hg : forall g cs h, glyph_at ex_font g = GC cs h -> (g = 2 /\ cs = [1; 4]) \/ (g = 5 /\ cs = [2])).
+  { intros g cs h. unfold glyph_at, znth. destruct (g <? 0); [discriminate|].
+    destruct (Z.to_nat g) as [|[|[|[|[|[|k]]]]]] eqn:E; cbn; try discriminate.
+    - intros [= <- <-]. left. split; [lia|reflexivity].
+    - intros [= <- <-]. right. split; [lia|reflexivity].
+    - destruct k; discriminate. }
+  repeat split.
+  - unfold ex_rank. destruct (g =? 5), (g =? 2); lia.
+  - unfold ex_rank. destruct (g =? 5), (g =? 2); lia.
+  - intros g cs h c H H0. destruct (Hg _ _ _ H) as [[-> ->]|[-> ->]]; cbn in H0; intuition (subst; reflexivity).
+  - destruct (Hg _ _ _ H) as [[-> ->]|[-> ->]]; cbn in H0; intuition (subst; cbn; lia).
+  - destruct (Hg _ _ _ H) as [[-> ->]|[-> ->]]; cbn in H0; intuition (subst; cbn; lia).
+  - vm_compute. discriminate.
+Qed.
+
 (* subset to everything *)
 Example ex_all : subset_model ex_font [0; 1; 2; 3; 4; 5] [65; 66; 67; 68; 69] 64 =
   Out 6 (Some [GS 10; GS 11; GC [1; 4] 12; GE; GS 14; GC [2] 15])
